@@ -205,6 +205,15 @@ Theorem quartet_hash_compat_partial : forall a b c d,
 Proof. exact Proofs.Quartet.quartet_hash_compat_partial. Qed.
 Print Assumptions quartet_hash_compat_partial.
 
+(** the repair: with the second compare-exchange turned the right way
+    ("if i4 < i3 { i3, i4 = i4, i3 }", [q_hash_code_fixed], a 5-comparator sorting network)
+    HashEquals quartets always have the same HashCode.  This is a statement about the proposed
+    fix, not about the code as it is. *)
+Theorem quartet_hash_compat_fixed : forall q q',
+    q_hash_equals q q' = true -> q_hash_code_fixed q = q_hash_code_fixed q'.
+Proof. exact Proofs.Quartet.quartet_hash_compat_fixed. Qed.
+Print Assumptions quartet_hash_compat_fixed.
+
 (** Compare recognises the eight presentations of one quartet *)
 Theorem quartet_equals_presentations : forall a b c d,
     q_compare (mkQ a b c d) (mkQ a b c d) = QEquals /\
